@@ -25,6 +25,8 @@ type PkgSpec struct {
 	Name    string   `json:"name"`
 	Imports []string `json:"imports,omitempty"`
 	HasC    bool     `json:"c,omitempty"`     // C side file named by LLGoFiles
+	TwoC    bool     `json:"c2,omitempty"`    // a second C file in the same LLGoFiles list
+	LinkLib bool     `json:"lib,omitempty"`   // needs a link argument recorded in the cache manifest (LLGoPackage = "link: -lbz2")
 	HasTag  bool     `json:"tag,omitempty"`   // file variant selected by build tag "alt"
 	HasX    bool     `json:"x,omitempty"`     // string variable overridable with -X
 	Embed   bool     `json:"embed,omitempty"` // //go:embed data file
@@ -36,6 +38,7 @@ type Step struct {
 	Arg     int    `json:"arg,omitempty"`
 	Torn    bool   `json:"torn,omitempty"`
 	FromEnd bool   `json:"from_end,omitempty"` // crash/fserr: Arg counts back from the number of cache operations of the previous build
+	Target  string `json:"target,omitempty"`   // crash: die just before publishing the "manifest" or the "archive" of package Pkg
 }
 
 type Scenario struct {
@@ -66,9 +69,9 @@ var (
 
 func (prop) Generate(rng *sim.Rng, tier string, runIndex int) driver.Scenario {
 	sc := &Scenario{}
-	n := rng.Range(2, 4)
+	n := rng.Range(3, 4)
 	if tier == "thorough" && rng.Intn(3) == 0 {
-		n = rng.Range(3, 6)
+		n = rng.Range(2, 6)
 	}
 	embedWorld := useEmbed && rng.Intn(4) == 0
 	for i := 0; i < n; i++ {
@@ -80,18 +83,38 @@ func (prop) Generate(rng *sim.Rng, tier string, runIndex int) driver.Scenario {
 			}
 		}
 		p.HasC = rng.Intn(3) == 0
+		p.TwoC = p.HasC && rng.Intn(2) == 0
+		p.LinkLib = p.HasC && haveBz2 && rng.Intn(2) == 0
 		p.HasTag = rng.Intn(3) == 0
 		p.HasX = false // no command-line path to -X string overrides exists at this commit
 		p.Embed = embedWorld && rng.Intn(2) == 0
 		sc.Pkgs = append(sc.Pkgs, p)
 	}
+	// builds are expensive (seconds each): make every world rich.  The last
+	// package is a shared dependency of two others (a diamond), one package has
+	// two C files and a link argument, one has a tag-selected file.
+	if n >= 3 {
+		last := fmt.Sprintf("p%d", n-1)
+		for _, i := range []int{0, n - 2} {
+			has := false
+			for _, im := range sc.Pkgs[i].Imports {
+				has = has || im == last
+			}
+			if !has {
+				sc.Pkgs[i].Imports = append(sc.Pkgs[i].Imports, last)
+			}
+		}
+	}
+	ci := rng.Intn(n)
+	sc.Pkgs[ci].HasC, sc.Pkgs[ci].TwoC, sc.Pkgs[ci].LinkLib = true, true, haveBz2
+	sc.Pkgs[rng.Intn(n)].HasTag = true
 	if embedWorld {
 		sc.Pkgs[rng.Intn(n)].Embed = true
 	}
 	sc.Clock = []string{"normal", "normal", "normal", "stall", "backwards", "coarse"}[rng.Intn(6)]
-	ns := rng.Range(3, 7)
+	ns := rng.Range(6, 10)
 	if tier == "thorough" {
-		ns = rng.Range(3, 12)
+		ns = rng.Range(4, 14)
 	}
 	sc.Steps = append(sc.Steps, Step{K: "build"})
 	for len(sc.Steps) < ns {
@@ -103,14 +126,12 @@ func (prop) Generate(rng *sim.Rng, tier string, runIndex int) driver.Scenario {
 			st = Step{K: "edit-src", Pkg: pi}
 		case r < 5:
 			st = Step{K: "edit-src-same", Pkg: pi}
-		case r < 7 && p.HasC:
-			st = Step{K: "edit-c", Pkg: pi}
-		case r < 8 && p.Embed:
+		case r < 8 && p.HasC:
+			st = Step{K: "edit-c", Pkg: pi, Arg: rng.Intn(2)}
+		case r < 9 && p.Embed:
 			st = Step{K: "edit-embed", Pkg: pi}
-		case r < 9 && p.HasTag:
+		case r == 9 && p.HasTag:
 			st = Step{K: "tag"}
-		case r < 10 && p.HasX:
-			st = Step{K: "x", Pkg: pi, Arg: rng.Intn(1000)}
 		case r == 10:
 			st = Step{K: "abi", Arg: rng.Intn(3)}
 		case r == 11:
@@ -132,6 +153,9 @@ func (prop) Generate(rng *sim.Rng, tier string, runIndex int) driver.Scenario {
 			// every edit is followed by a rebuild (possibly an interrupted one first)
 			if rng.Intn(4) == 0 {
 				sc.Steps = append(sc.Steps, Step{K: []string{"crash", "fserr"}[rng.Intn(2)], Arg: rng.Range(0, 30), Torn: rng.Intn(3) == 0, FromEnd: true})
+			} else if rng.Intn(4) == 0 && strings.HasPrefix(st.K, "edit") {
+				// the build dies between publishing the edited package's archive and its manifest (or just before the archive)
+				sc.Steps = append(sc.Steps, Step{K: "crash", Pkg: st.Pkg, Target: []string{"manifest", "manifest", "archive"}[rng.Intn(3)]})
 			}
 			sc.Steps = append(sc.Steps, Step{K: "build"})
 		} else if st.K == "crash" || st.K == "fserr" || st.K == "clear" {
@@ -147,6 +171,7 @@ type pkgState struct {
 	srcVer   int // value of the source constant
 	pad      int // different-size edits add padding
 	cVal     int
+	c2Val    int
 	embedVer int
 	xVal     string
 }
@@ -176,6 +201,12 @@ func (w *world) line(i int) string {
 	if p.HasC {
 		parts = append(parts, fmt.Sprintf("c=%d", s.cVal))
 	}
+	if p.TwoC {
+		parts = append(parts, fmt.Sprintf("c2=%d", s.c2Val))
+	}
+	if p.LinkLib {
+		parts = append(parts, "bz=49") // first character of BZ2_bzlibVersion(): '1'
+	}
 	if p.HasTag {
 		if w.tag {
 			parts = append(parts, "tag=alt")
@@ -191,7 +222,8 @@ func (w *world) line(i int) string {
 	}
 	for _, im := range p.Imports {
 		j, _ := strconv.Atoi(strings.TrimPrefix(im, "p"))
-		parts = append(parts, "["+w.line(j)+"]")
+		// the dependency's constant is compiled into the importer; its Line() is linked
+		parts = append(parts, fmt.Sprintf("K%d=v%04d", j, w.st[j].srcVer), "["+w.line(j)+"]")
 	}
 	return strings.Join(parts, " ")
 }
@@ -243,9 +275,23 @@ func (w *world) writePkg(i int) {
 		fmt.Fprintf(&sb, "\t\"c13mod/%s\"\n", im)
 	}
 	sb.WriteString(")\n\n")
-	fmt.Fprintf(&sb, "const srcVer = \"v%04d\"\n%s\n", s.srcVer, strings.Repeat("// padding\n", s.pad))
+	fmt.Fprintf(&sb, "const srcVer = \"v%04d\"\n\n// SrcVer is compiled into importers.\nconst SrcVer = srcVer\n%s\n", s.srcVer, strings.Repeat("// padding\n", s.pad))
 	if p.HasC {
-		fmt.Fprintf(&sb, "const (\n\tLLGoFiles   = \"_wrap/w.c\"\n\tLLGoPackage = \"link\"\n)\n\n//go:linkname cval C.%s_cval\nfunc cval() int32\n\n", p.Name)
+		files := "_wrap/w.c"
+		if p.TwoC {
+			files = "_wrap/w.c; _wrap/w2.c"
+		}
+		link := "link"
+		if p.LinkLib {
+			link = "link: -lbz2"
+		}
+		fmt.Fprintf(&sb, "const (\n\tLLGoFiles   = \"%s\"\n\tLLGoPackage = \"%s\"\n)\n\n//go:linkname cval C.%s_cval\nfunc cval() int32\n\n", files, link, p.Name)
+		if p.LinkLib {
+			fmt.Fprintf(&sb, "//go:linkname bz C.%s_bz\nfunc bz() int32\n\n", p.Name)
+		}
+		if p.TwoC {
+			fmt.Fprintf(&sb, "//go:linkname cval2 C.%s_cval2\nfunc cval2() int32\n\n", p.Name)
+		}
 	}
 	if p.HasX {
 		sb.WriteString("var X = \"x0\"\n\n")
@@ -258,6 +304,12 @@ func (w *world) writePkg(i int) {
 	if p.HasC {
 		sb.WriteString("\ts += \" c=\" + itoa(cval())\n")
 	}
+	if p.TwoC {
+		sb.WriteString("\ts += \" c2=\" + itoa(cval2())\n")
+	}
+	if p.LinkLib {
+		sb.WriteString("\ts += \" bz=\" + itoa(bz())\n")
+	}
 	if p.HasTag {
 		sb.WriteString("\ts += \" tag=\" + variant\n")
 	}
@@ -268,10 +320,19 @@ func (w *world) writePkg(i int) {
 		sb.WriteString("\ts += \" embed=\" + data\n")
 	}
 	for _, im := range p.Imports {
-		fmt.Fprintf(&sb, "\ts += \" [\" + %s.Line() + \"]\"\n", im)
+		fmt.Fprintf(&sb, "\ts += \" K%s=\" + %s.SrcVer + \" [\" + %s.Line() + \"]\"\n", strings.TrimPrefix(im, "p"), im, im)
 	}
 	sb.WriteString("\treturn s\n}\n")
 	w.write(filepath.Join(d, p.Name+".go"), sb.String())
+}
+
+func (w *world) cSource(i int) string {
+	p := w.sc.Pkgs[i]
+	src := fmt.Sprintf("int %s_cval(void) { return %d; }\n", p.Name, w.st[i].cVal)
+	if p.LinkLib {
+		src += fmt.Sprintf("extern const char *BZ2_bzlibVersion(void);\nint %s_bz(void) { return BZ2_bzlibVersion()[0]; }\n", p.Name)
+	}
+	return src
 }
 
 func (w *world) writeAll() {
@@ -291,7 +352,10 @@ func (w *world) writeAll() {
 		w.writePkg(i)
 		d := filepath.Join(w.dir, p.Name)
 		if p.HasC {
-			w.write(filepath.Join(d, "_wrap", "w.c"), fmt.Sprintf("int %s_cval(void) { return %d; }\n", p.Name, w.st[i].cVal))
+			w.write(filepath.Join(d, "_wrap", "w.c"), w.cSource(i))
+		}
+		if p.TwoC {
+			w.write(filepath.Join(d, "_wrap", "w2.c"), fmt.Sprintf("int %s_cval2(void) { return %d; }\n", p.Name, w.st[i].c2Val))
 		}
 		if p.HasTag {
 			w.write(filepath.Join(d, "variant_default.go"), "//go:build !alt\n\npackage "+p.Name+"\n\nconst variant = \"default\"\n")
@@ -314,7 +378,7 @@ type buildResult struct {
 	hits     int
 }
 
-func (w *world) build(crashAt int, fserr int, torn bool) buildResult {
+func (w *world) build(crashAt int, fserr int, torn bool, match ...string) buildResult {
 	args := []string{"build", "-v", "-o", filepath.Join(w.dir, "prog.out")}
 	anyEmbed := false
 	for _, p := range w.sc.Pkgs {
@@ -345,6 +409,9 @@ func (w *world) build(crashAt int, fserr int, torn bool) buildResult {
 	cmd.Env = []string{"PATH=" + go123 + ":/usr/bin:/bin", "HOME=" + tmpRoot, "LLGO_ROOT=" + repoDir, "LLVM_CONFIG=" + shimDir + "/bin/llvm-config",
 		"GOTOOLCHAIN=local", "GOFLAGS=-mod=mod", "GOPROXY=off", "GOWORK=off", "XDG_CACHE_HOME=" + w.cache, "VERIF_OPLOG=" + oplog,
 		"GOCACHE=" + goEnv("GOCACHE"), "GOMODCACHE=" + goEnv("GOMODCACHE")}
+	if len(match) > 0 && match[0] != "" {
+		cmd.Env = append(cmd.Env, "VERIF_CRASH_MATCH="+match[0])
+	}
 	if crashAt > 0 {
 		cmd.Env = append(cmd.Env, "VERIF_CRASH_AT="+strconv.Itoa(crashAt))
 		if torn {
@@ -398,6 +465,8 @@ func goEnv(k string) string {
 	return v
 }
 
+var haveBz2 = func() bool { _, err := os.Stat("/usr/lib/x86_64-linux-gnu/libbz2.so"); return err == nil }()
+
 var worldSeq int
 
 func (prop) Run(scx driver.Scenario, ch *sim.Choices, keep bool) *driver.Result {
@@ -410,7 +479,7 @@ func (prop) Run(scx driver.Scenario, ch *sim.Choices, keep bool) *driver.Result 
 	w := &world{sc: sc, dir: filepath.Join(root, "mod"), cache: filepath.Join(root, "cache"), keep: keep, abi: 2, clock: 1_700_000_000_000_000_000}
 	w.st = make([]pkgState, len(sc.Pkgs))
 	for i := range w.st {
-		w.st[i] = pkgState{srcVer: 1, cVal: 10 + i, embedVer: 1, xVal: "x0"}
+		w.st[i] = pkgState{srcVer: 1, cVal: 10 + i, c2Val: 50 + i, embedVer: 1, xVal: "x0"}
 	}
 	os.MkdirAll(w.cache, 0o755)
 	// pre-warmed runtime/std cache: hard links (entries are only ever replaced, never written in place)
@@ -454,9 +523,18 @@ func (prop) Run(scx driver.Scenario, ch *sim.Choices, keep bool) *driver.Result 
 		case "edit-c":
 			s := &w.st[st.Pkg]
 			path := filepath.Join(w.dir, sc.Pkgs[st.Pkg].Name, "_wrap", "w.c")
+			second := sc.Pkgs[st.Pkg].TwoC && st.Arg%2 == 1
+			if second {
+				path = filepath.Join(w.dir, sc.Pkgs[st.Pkg].Name, "_wrap", "w2.c")
+			}
 			before, _ := os.Stat(path)
-			s.cVal = (s.cVal+7)%90 + 10 // always two digits: same size
-			w.write(path, fmt.Sprintf("int %s_cval(void) { return %d; }\n", sc.Pkgs[st.Pkg].Name, s.cVal))
+			if second {
+				s.c2Val = (s.c2Val+7)%90 + 10
+				w.write(path, fmt.Sprintf("int %s_cval2(void) { return %d; }\n", sc.Pkgs[st.Pkg].Name, s.c2Val))
+			} else {
+				s.cVal = (s.cVal+7)%90 + 10 // always two digits: same size
+				w.write(path, w.cSource(st.Pkg))
+			}
 			after, _ := os.Stat(path)
 			sameMtime = before != nil && after != nil && before.Size() == after.Size() && before.ModTime().Equal(after.ModTime())
 			lastEdit = st.K
@@ -500,8 +578,14 @@ func (prop) Run(scx driver.Scenario, ch *sim.Choices, keep bool) *driver.Result 
 			} else if pendingFault.K == "fserr" {
 				fserr = k
 			}
-			if crashAt > 0 || fserr > 0 {
-				r := w.build(crashAt, fserr, pendingFault.Torn)
+			match := ""
+			if pendingFault.K == "crash" && pendingFault.Target != "" {
+				suffix := map[string]string{"manifest": ".manifest", "archive": ".a"}[pendingFault.Target]
+				match = "rename|/c13mod/" + sc.Pkgs[pendingFault.Pkg].Name + "/|" + suffix
+				crashAt = 0
+			}
+			if crashAt > 0 || fserr > 0 || match != "" {
+				r := w.build(crashAt, fserr, pendingFault.Torn, match)
 				builds++
 				if r.killed {
 					res.Faults["crash-during-build"]++
@@ -509,7 +593,11 @@ func (prop) Run(scx driver.Scenario, ch *sim.Choices, keep bool) *driver.Result 
 						res.Faults["torn-write"]++
 					}
 					where := ""
-					if crashAt <= len(r.ops) {
+					if match != "" {
+						crashAt = len(r.ops)
+						res.Probes["crash-targeted-before-"+pendingFault.Target+"-publication"]++
+					}
+					if crashAt >= 1 && crashAt <= len(r.ops) {
 						where = r.ops[crashAt-1]
 					}
 					w.logf("step %d: build killed at cache operation %d (%s)", si, crashAt, shorten(where, w))
